@@ -2,8 +2,12 @@ TECH = "bounded symbolic execution of the real code (CrossHair/z3), {what}; solv
 NOTE = ("Trusted: CrossHair path-tree exhaustion + z3; the symsched model of anyio (validated by running /repo/tests on it); "
         "the reference-model oracle in the harness. Claim holds only inside the stated bound (evidence.coverage.harnesses[].bound).")
 
+MORE = (" Further scenario families added in later rounds (fault, race, reuse and unusual-value harnesses; listed one by one with their bounds in "
+        "evidence.coverage.harnesses[] and in DESIGN.md section 12.5) are each exhaustive within their own stated bound.")
+
+
 def _c(text, what):
-    return {"text": text, "note": NOTE, "technique": TECH.format(what=what)}
+    return {"text": text + MORE, "note": NOTE, "technique": TECH.format(what=what)}
 
 
 CHECKS = {
